@@ -93,7 +93,7 @@ func workers() int {
 // Deadline returns the internal deadline of a run (never an oracle: a run that reaches it ends
 // with exit 0 and exhaustive:false).
 func Deadline(tier string) time.Time {
-	d := 240 * time.Second
+	d := 300 * time.Second
 	if tier == "thorough" {
 		d = 40 * time.Minute
 	}
